@@ -3,6 +3,14 @@ drivers and which trace specifications (pipelines B/C) decide each property, and
 classes a run must have exercised to count as non-vacuous."""
 
 PROPS = {}
+
+
+def _bug(spec, params, bug, inv, **kw):
+    """non-vacuity: the same model with one deliberately wrong design (VERIF_BUG) must violate the named invariant"""
+    d = {"spec": spec, "params": params, "cfg": spec + ".cfg", "env": {"VERIF_MCFULL": "0", "VERIF_BUG": bug}, "expect_violation": inv, "label": spec + "[" + bug + "]"}
+    d.update(kw)
+    return d
+
 NOT_APPLICABLE = {}
 
 PROPS["C01"] = {
@@ -20,6 +28,7 @@ PROPS["C01"] = {
     ],
     "drivers": [
         {"driver": "field", "trace": "Trace_Field"},
+        {"driver": "field", "trace": "Trace_Field", "goarch": "386"},          # the same arithmetic where int / uint are 32 bits wide
     ],
     "require_classes": {"quick": ["life_step", "life_zero", "life_reject", "sum_window", "diff_borrow", "mont_window", "mont_sqr_window", "decode_ge_p", "canon_reject",
                                   "wide_len_odd", "wide_ge_p", "wide_panic", "sqrt_residue", "sqrt_nonresidue", "sqrt_zero",
@@ -50,6 +59,7 @@ PROPS["C02"] = {
     ],
     "drivers": [
         {"driver": "scalar", "trace": "Trace_Scalar"},
+        {"driver": "scalar", "trace": "Trace_Scalar", "goarch": "386"},
     ],
     "require_classes": {"quick": ["life_step", "life_zero", "life_reject", "sum_window", "diff_borrow", "mont_window", "mont_sqr_window", "decode_ge_n", "canon_reject",
                                   "inv_zero", "inv_special", "alias_all", "alias_recv", "half_boundary", "gt_half", "le_half",
@@ -81,8 +91,9 @@ PROPS["C03"] = {
     ],
     "drivers": [
         {"driver": "point", "trace": "Trace_Point"},
+        {"driver": "point", "trace": "Trace_Point", "goarch": "386", "tiers": ("thorough",)},
     ],
-    "require_classes": {"quick": ["life_step", "life_reject", "life_inf", "life_ctrl", "add_inf_inf", "add_inf_p", "add_p_inf", "add_p_p", "add_p_negp", "add_generic", "add_inf_altrep",
+    "require_classes": {"quick": ["life_step", "life_reject", "life_reject_cmp", "life_decode_id", "equal_limb_twin", "life_inf", "life_ctrl", "add_inf_inf", "add_inf_p", "add_p_inf", "add_p_p", "add_p_negp", "add_generic", "add_inf_altrep",
                                   "z_not_one", "alias_recv", "alias_all", "mixed_p_p", "mixed_p_negp", "mixed_inf", "dbl_inf",
                                   "equal_true_diffrep", "equal_neg", "equal_same_y", "equal_inf_inf", "equal_p_inf", "yodd", "yeven", "inf_parity", "enc_inf",
                                   "chain_step"]},
@@ -113,9 +124,10 @@ PROPS["C04"] = {
     "level_note": "trusted: TLC, BigInt/EcAdd/EcMul overrides (self-tested against the TLA+ definitions on every setup), verif accessors",
     "exhaustive": _MUL_A,
     "drivers": [{"driver": "mul", "trace": "Trace_Point"},
-                {"driver": "mul", "trace": "Trace_Point", "tags": ("verif", "purego")}],            # the portable lookup is part of this property's code
+                {"driver": "mul", "trace": "Trace_Point", "tags": ("verif", "purego")},             # the portable lookup is part of this property's code
+                {"driver": "mul", "trace": "Trace_Point", "goarch": "386", "tiers": ("thorough",)}],
     "require_classes": {"quick": ["split_extreme", "split_neg1", "split_neg2", "split_round_flip", "split_limb_carry", "split_edge",
-                                  "mul_zero", "mul_inf", "mul_alias", "mul_edge_scalar", "mul_altrep", "glv_bound"]},
+                                  "mul_zero", "mul_inf", "mul_alias", "mul_edge_scalar", "mul_altrep", "glv_bound", "dsm_only_base", "dsm_only_var", "dsm_cancel", "mul_seq"]},
     "assumptions": ["full-size multiplications are sampled on steered scalars with an exact oracle; the for-all-s bound is a closed form evaluated at full size "
                     "and validated against exhaustive enumeration only on miniature curves"],
 }
@@ -131,8 +143,9 @@ PROPS["C05"] = {
     "level_note": "trusted: TLC, BigInt/EcAdd/EcMul overrides (self-tested), verif accessors reading the deserialised tables",
     "exhaustive": _MUL_A[:1] + [_MUL_A[1]],
     "drivers": [{"driver": "basemul", "trace": "Trace_Point"},
-                {"driver": "basemul", "trace": "Trace_Point", "tags": ("verif", "purego")}],        # both lookup configurations
-    "require_classes": {"quick": ["tbl_huge", "tbl_odd", "tbl_row", "bm_single_byte", "bm_zero_nibble", "bm_edge", "bm_priv", "bm_priv_after_derive", "bm_recycled"]},
+                {"driver": "basemul", "trace": "Trace_Point", "tags": ("verif", "purego")},         # both lookup configurations
+                {"driver": "basemul", "trace": "Trace_Point", "tags": ("verif", "purego"), "goarch": "386"}],   # ... and a 32-bit word size
+    "require_classes": {"quick": ["tbl_huge", "tbl_odd", "tbl_row", "bm_single_byte", "bm_zero_nibble", "bm_edge", "bm_priv", "bm_priv_after_derive", "bm_recycled", "dsm_window_meet"]},
     "assumptions": ["table entries are exhaustively checked (finite set); multiplications on multi-byte scalars are sampled"],
     "min_counts": {"tbl_huge": 8160, "tbl_odd": 480, "tbl_row": 32, "bm_single_byte": 16320},
 }
@@ -157,7 +170,7 @@ PROPS["C06"] = {
     "drivers": [{"driver": "sec1", "trace": "Trace_Point"},
                 {"driver": "ptlife", "trace": "Trace_Point"}],       # both encoders (and XBytes / IsYOdd) on a long-lived object after every kind of operation
     "require_classes": {"quick": ["dec_ok_cmp", "dec_ok_unc", "dec_ok_inf", "dec_bad_len", "dec_bad_prefix", "dec_noncanon_x", "dec_noncanon_y",
-                                  "dec_offcurve", "dec_nonresidue", "dec_hybrid", "dec_recv_uninit", "dec_recv_kept", "dec_fresh", "coords_ok", "coords_bad",
+                                  "dec_offcurve", "dec_nonresidue", "dec_hybrid", "dec_recv_uninit", "dec_recv_kept", "dec_fresh", "coords_ok", "coords_bad", "life_reject_cmp", "life_decode_id",
                                   "rec_ok_low", "rec_ok_high", "rec_overflow", "rec_bad_id", "rec_nonresidue"]},
     "assumptions": ["full-size byte strings are sampled per class (exact oracle); all byte strings are enumerated only on the miniature curves"],
 }
@@ -201,10 +214,11 @@ PROPS["C07"] = {
                   "encoding mutated, and the Wycheproof files re-driven through the logger.",
     "level_note": "trusted: TLC, BigInt/EcMul/SHA-256 overrides (self-tested), harness logging; generators (incl. the recovery trick) untrusted",
     "exhaustive": _ECDSA_A,
-    "drivers": [{"driver": "verify", "trace": "Trace_Ecdsa"}],
+    "drivers": [{"driver": "verify", "trace": "Trace_Ecdsa"},
+                {"driver": "verify", "trace": "Trace_Ecdsa", "goarch": "386", "tiers": ("thorough",)}],
     "require_classes": {"quick": ["r_zero", "s_zero", "high_s_rej", "high_s_acc", "x_ge_n", "R_inf", "e_zero", "digest_ge_n", "digest_short",
                                   "digest_long", "accept", "reject", "enc_asn1", "enc_compact", "enc_rec", "enc_bogus", "rec_wrong_v", "btc_accept",
-                                  "btc_badenv", "btc_high_s", "hash_mismatch", "parse_reject", "alt_path", "nil_opts", "after_scribble", "near_miss_r"]},
+                                  "btc_badenv", "btc_high_s", "hash_mismatch", "parse_reject", "cmp_shift_n", "alt_path", "nil_opts", "after_scribble", "near_miss_r"]},
     "assumptions": ["full-size inputs are constructed per corner class and decided by an exact oracle; all inputs are enumerated only on miniature curves"],
 }
 
@@ -219,7 +233,8 @@ PROPS["C08"] = {
                   "lengths 0..65}, hedged and RFC 6979 nonces, every option combination.",
     "level_note": "trusted: TLC, BigInt/EcMul/SHA-256 overrides (self-tested), harness logging",
     "exhaustive": _ECDSA_A,
-    "drivers": [{"driver": "sign", "trace": "Trace_Ecdsa"}],
+    "drivers": [{"driver": "sign", "trace": "Trace_Ecdsa"},
+                {"driver": "sign", "trace": "Trace_Ecdsa", "goarch": "386", "tiers": ("thorough",)}],
     "require_classes": {"quick": ["d_one", "d_nm1", "pub_yodd", "pub_yeven", "digest_zero", "digest_ones", "digest_ge_n", "v0", "v1",
                                   "sv_same", "inadmissible_len", "inadmissible_enc", "rfc6979", "hedged", "sign_len_long", "enc_asn1", "enc_compact",
                                   "enc_rec", "nil_opts", "build_der", "build_short", "build_compact", "after_derive", "accept", "sig_stable"]},
@@ -247,7 +262,7 @@ PROPS["C09"] = {
                    {"spec": "NonceProof", "engine": "tlaps", "files": ["Nonce.tla", "NonceProof.tla"]}],
     "drivers": [{"driver": "nonce", "trace": "Trace_Ecdsa", "shards": 16}],
     "require_classes": {"quick": ["reader_short_reads", "reader_fail_0", "reader_fail_mid", "reader_fail_31", "reader_err_with_last", "reader_ok",
-                                  "same_triple", "entropy_one_byte_diff", "constant_entropy_diff_msg", "nil_rand", "wiped_import", "sample_first", "sample_after_zero",
+                                  "same_triple", "entropy_one_byte_diff", "constant_entropy_diff_msg", "nil_rand", "wiped_import", "digest_scribbled", "sample_first", "sample_after_zero",
                                   "sample_after_ge_n", "sample_exhausted", "sample_short", "sample_edge_accept", "drbg_multi", "drbg_vector", "rfc6979",
                                   "inadmissible_len"]},
     "assumptions": ["statistical unbiasedness is not decided, only the structural rule (reject, never reduce; bounded retries)",
@@ -264,7 +279,8 @@ PROPS["C10"] = {
                   "equal the specification's encodings of d*G; ECDH(a,B) = ECDH(b,A) = x(abG) with the peer key travelling in each encoding.",
     "level_note": "trusted: TLC, BigInt/EcMul overrides (self-tested), harness logging",
     "exhaustive": _ECDSA_A[:1] + [{"spec": "MC_Sec1", "params": "mini211", "env": {"VERIF_MCFULL": "1"}}],
-    "drivers": [{"driver": "keys", "trace": "Trace_Ecdsa"}],
+    "drivers": [{"driver": "keys", "trace": "Trace_Ecdsa"},
+                {"driver": "keys", "trace": "Trace_Ecdsa", "goarch": "386", "tiers": ("thorough",)}],
     "require_classes": {"quick": ["priv_ok", "priv_zero", "priv_ge_n", "priv_badlen", "pub_ok_unc", "pub_ok_cmp", "pub_identity", "pub_invalid",
                                   "pub_twist", "ecdh_ok", "ecdh_edge", "ecdh_repeat", "key_immutable", "rec_q_inf", "key_after_rejected_decode"]},
     "assumptions": ["full-size keys are sampled per class with an exact oracle"],
@@ -279,8 +295,9 @@ PROPS["C11"] = {
                   "(r,s,e) with sR = eG (Q at infinity), short digests; every success is followed by a VerifyRaw event of the recovered key.",
     "level_note": "trusted: TLC, BigInt/EcMul overrides (self-tested), harness logging",
     "exhaustive": _ECDSA_A,
-    "drivers": [{"driver": "recover", "trace": "Trace_Ecdsa"}],
-    "require_classes": {"quick": ["rec_v_ge4", "rec_hi_ok", "rec_hi_overflow", "rec_not_x", "rec_q_inf", "rec_rs_zero", "rec_ok", "accept", "digest_ge_n", "digest_long"]},
+    "drivers": [{"driver": "recover", "trace": "Trace_Ecdsa"},
+                {"driver": "recover", "trace": "Trace_Ecdsa", "goarch": "386", "tiers": ("thorough",)}],
+    "require_classes": {"quick": ["rec_v_ge4", "rec_hi_ok", "rec_hi_overflow", "rec_not_x", "rec_q_inf", "rec_rs_zero", "rec_ok", "accept", "digest_ge_n", "digest_long", "kept_key", "sig_stable"]},
     "assumptions": ["full-size inputs are constructed per corner class and decided by an exact oracle"],
 }
 
@@ -308,7 +325,7 @@ PROPS["C12"] = {
                            "what": "skeleton files (base + every single + every pair of structural deviations; NoSecondEncoding checked at miniature width)"}}],
     "require_classes": {"quick": ["der_ok", "der_bad", "der_len_long_form", "der_indefinite", "der_leading_zero", "der_negative", "der_trailing",
                                   "der_wrong_tag", "der_empty_int", "der_33_byte", "der_value_zero", "der_value_ge_n", "der_short_input",
-                                  "build_roundtrip", "build_high_bit", "build_short", "cmp_ok", "cmp_bad_len", "cmp_zero", "cmp_ge_n", "cmpv_ok",
+                                  "build_roundtrip", "build_high_bit", "build_short", "cmp_ok", "cmp_bad_len", "cmp_zero", "cmp_ge_n", "cmpv_ok", "spki_prefix_sweep",
                                   "bip_ok", "bip_len_edge", "bip_bad", "bip_but_not_der", "bip_neg", "bip_padding",
                                   "spki_ok_unc", "spki_ok_cmp", "spki_unused_bits", "spki_unused_bits_zero_pad", "spki_bad_oid", "spki_trailing",
                                   "spki_bad_point", "spki_identity", "spki_params", "spki_bad", "random_bytes", "model_sig_shape", "model_spki_shape", "enc_stable"]},
@@ -325,6 +342,8 @@ _SCHNORR_MC = ("Schnorr.tla transcribes BIP-340 (lift_x, Verify, Sign with the d
                "s = k + e d; that lift_x accepts exactly on-curve x < p; and that for ALL (d', k', e) the signing algebra negates d and k exactly by the "
                "parities of P and R and yields a signature that verifies. ")
 
+PROPS["C12"]["drivers"].append(dict(PROPS["C12"]["drivers"][0], goarch="386", tiers=("thorough",)))     # the parsers' length arithmetic where int is 32 bits wide
+
 PROPS["C13"] = {
     "title": "BIP-340 verification accepts exactly what the BIP-340 algorithm accepts",
     "technique": 'TLA+ transcription of BIP-340 Verify model-checked with the challenge ranging over Z_n on a miniature curve + TLC trace validation recomputing the tagged hashes',
@@ -339,7 +358,7 @@ PROPS["C13"] = {
     "drivers": [{"driver": "schnorr", "trace": "Trace_Schnorr"},
                 {"driver": "schnorr", "trace": "Trace_Schnorr", "tags": ("verif", "purego")}],   # the portable lookups are part of key derivation and signing
     "require_classes": {"quick": ["pk_ok", "pk_x_ge_n", "pk_not_on_curve", "pk_ge_p", "pk_bad_len", "vfy_accept", "vfy_reject", "r_ge_p", "s_ge_n", "s_zero",
-                                  "R_odd_y", "R_inf", "x_mismatch", "msg_len_0", "msg_len_odd", "msg_len_long", "sig_bad_len", "vector"]},
+                                  "R_odd_y", "R_inf", "x_mismatch", "msg_len_0", "msg_nil_accept", "msg_len_odd", "msg_len_long", "sig_bad_len", "vector"]},
     "assumptions": ["full-size inputs are constructed per corner class and decided by an exact oracle"],
 }
 
@@ -358,7 +377,7 @@ PROPS["C14"] = {
                 {"driver": "schnorr", "trace": "Trace_Schnorr", "tags": ("verif", "purego")}],   # the portable lookups are part of key derivation and signing
     "require_classes": {"quick": ["sign_P_even_R_even", "sign_P_even_R_odd", "sign_P_odd_R_even", "sign_P_odd_R_odd", "aux_zero", "aux_ones",
                                   "sign_public_api", "sign_reader_fail", "from_point_odd", "from_point_even", "from_point_inf", "from_point_altrep",
-                                  "from_ecdsa", "self_verify", "immutable", "msg_len_0", "msg_len_odd", "msg_len_long", "vector"]},
+                                  "from_ecdsa", "self_verify", "immutable", "msg_len_0", "msg_nil_sign", "msg_len_odd", "msg_len_long", "vector"]},
     "assumptions": ["k' = 0 (a 2^-256 event) is covered only by the model"],
 }
 
@@ -382,8 +401,9 @@ PROPS["C15"] = {
         {"spec": "MC_H2C", "params": "mini43", "tiers": ("thorough",)},
         {"spec": "MC_H2C", "params": "mini79", "tiers": ("thorough",)},
     ],
-    "drivers": [{"driver": "h2c", "trace": "Trace_H2C"}],
-    "require_classes": {"quick": ["suite_ro", "suite_nu", "dst_1", "dst_254", "dst_255", "dst_256", "dst_257", "dst_long", "dst_empty", "msg_empty",
+    "drivers": [{"driver": "h2c", "trace": "Trace_H2C"},
+                {"driver": "h2c", "trace": "Trace_H2C", "goarch": "386"}],                  # length arithmetic where int is 32 bits wide
+    "require_classes": {"quick": ["suite_ro", "suite_nu", "dst_1", "dst_254", "dst_255", "dst_256", "dst_257", "dst_long", "dst_wide", "dst_empty", "msg_empty",
                                   "msg_long", "uni_len_32", "uni_len_48", "uni_len_64", "uni_len_other", "uni_ge_p", "uni_panic", "u_zero", "u_one",
                                   "u_pm1", "u_exceptional", "gx1_square", "gx1_nonsquare", "u_odd", "u_even", "y_flipped", "xmd_ok", "xmd_err",
                                   "xmd_len_edge", "xmd_ell_max", "xmd_vector", "iso_ok", "swu_ok", "suite_vector", "pure"]},
@@ -590,3 +610,25 @@ PROPS["C17"] = {
     "assumptions": ["secrets are sampled families, not all secrets", "block counters cannot see branch-free data-dependent addressing outside the lookup routines",
                     "micro-architectural timing is out of scope, as in the property"],
 }
+
+# ---- non-vacuity of the exhaustive models (session 4): every model is also run with deliberately wrong designs that it must reject.
+# (Mutating the specification's algorithms is the model-level twin of the seeded defects: an invariant that a wrong design still
+# satisfies would be vacuous.  This found one: the quick alphabet of MC_Wire contained no accepted DER string.)
+_BUGS = {
+    "C01": [_bug("MC_Field", "mini163", "inv_exponent", "PairInv"), _bug("MC_Field", "mini163", "wide_drop_top", "WideInv")],
+    "C02": [_bug("MC_Scalar", "mini163", "gthalf_ge", "PairInv"), _bug("MC_Scalar", "mini163", "reduce_strict", "ByteInv")],
+    "C03": [_bug("MC_Projective", "mini43", "incomplete_add", "GroupLaw"), _bug("MC_Projective", "mini43", "equal_x_only", "GroupLaw")],
+    "C04": [_bug("MC_Mul", "mini43", "round_down", "SplitInv")],
+    "C06": [_bug("MC_Sec1", "mini211", "prefix_flag", "DecodeInv"), _bug("MC_Sec1", "mini211", "stale_receiver", "DecodeInv")],
+    "C07": [_bug("MC_Ecdsa", "mini43", "verify_no_mod_n", "VerifyInv")],
+    "C08": [_bug("MC_Ecdsa", "mini43", "sign_high_s", "SignInv")],
+    "C10": [_bug("MC_Sec1", "mini211", "prefix_flag", "DecodeInv")],
+    "C11": [_bug("MC_Ecdsa", "mini43", "recover_ignores_bit1", "RecoverInv"), _bug("MC_Sec1", "mini211", "recover_no_overflow_check", "BijectionInv")],
+    "C12": [_bug("MC_Wire", "mini211", "compact_and", "BuildInv"), _bug("MC_Wire", "mini211", "der_negative_ok", "DerInv")],
+    "C13": [_bug("MC_Schnorr", "mini43", "odd_R_accepted", "VerifyInv"), _bug("MC_Schnorr", "mini43", "s_reduced", "VerifyInv")],
+    "C14": [_bug("MC_Schnorr", "mini43", "sign_no_negate_k", "SignInv")],
+    "C15": [_bug("MC_H2C", "mini211", "sgn0_ignored", "SwuInv")],
+    "C16": [_bug("MC_Mul", "mini43", "dsm_vanish", "DsmInv")],
+}
+for _pid, _l in _BUGS.items():
+    PROPS[_pid]["exhaustive"] = list(PROPS[_pid]["exhaustive"]) + _l
